@@ -195,8 +195,17 @@ func (z *Z) ind3(ok bool) string {
 	return ""
 }
 
+// piHazard: the look-alike '<?>' is only plain text while no '?>' follows it in the same block.
+func piHazard(txt string) {
+	if i := strings.Index(txt, "<?>"); i >= 0 && strings.Contains(txt[i+3:], "?>") {
+		panic("pi hazard")
+	}
+}
+
 func (z *Z) paraLines(in []Inline, extraOK bool) []ln {
-	parts := strings.Split(z.inl(in), "\n")
+	txt := z.inl(in)
+	piHazard(txt)
+	parts := strings.Split(txt, "\n")
 	var out []ln
 	for i, p := range parts {
 		ind := ""
@@ -245,6 +254,7 @@ func (z *Z) hr(afterPara bool, avoid byte, extraOK bool) ln {
 
 func (z *Z) heading(h Heading, afterPara bool, extraOK bool) []ln {
 	txt := z.inl(h.C)
+	piHazard(txt)
 	multi := strings.Contains(txt, "\n")
 	if h.Level <= 2 && !afterPara && (multi || coin(z.s, 1, 2)) {
 		z.note("setext")
